@@ -302,7 +302,19 @@ def k_recorded(run, case):
               key=key, M=M)
 
 
-KINDS = {"align": k_align, "origin": k_origin, "recorded": k_recorded}
+def k_cli(run, case):
+    """
+    The alignment options end to end: evo_ape / evo_rpe with -a / -s / --align_origin and
+    --n_to_align in every admitted combination (C01's / C02's executor: the processed pair must
+    be the documented alignment - determined from the first n pairs when n is given - and the
+    recorded matrix clause is judged by this check's own kind 'recorded').
+    """
+    from vmon.props import C01, C02
+    (C01.k_cli if case.get("tool", "ape") == "ape" else C02.k_cli)(run, case)
+    run.hit("evo_ape / evo_rpe runs with alignment options judged")
+
+
+KINDS = {"align": k_align, "origin": k_origin, "recorded": k_recorded, "cli": k_cli}
 
 
 def main(run):
@@ -326,9 +338,12 @@ def main(run):
         k_align(run, run.case("align", 2 * 10**6 + i, toy=True))
     for i in run.mine(n // 4):
         k_origin(run, run.case("origin", i))
+    for i in run.mine({"quick": 80, "thorough": 2000}[run.tier]):
+        k_cli(run, run.case("cli", i, tool=["ape", "rpe"][i % 2],
+                            force_options=[["n_to_align", "scale_only"], ["n_to_align"], ["scale_only"]][(i // 2) % 3]))
     for i in run.mine(n // 4):
         k_recorded(run, run.case("recorded", i))
-    run.need("positions moved by exactly the returned similarity",
+    run.need("evo_ape / evo_rpe runs with alignment options judged", "positions moved by exactly the returned similarity",
              "orientations rotated by exactly the returned rotation", "reference unchanged",
              "align-result: optimal vs Horn", "result depends on the first n pairs only",
              "re-alignment is the identity", "RMSE not larger than before",
